@@ -28,6 +28,10 @@ type TransSpec struct {
 	Funcs     []string // "Recv.Name" or "Name"; callees inside the package are pulled in automatically
 	Extern    []string // [seq] functions translated by another area (its Gen file is imported by the caller's header): analysed, not emitted
 	TimedTail []string // [seq] functions whose body is translated up to the first statement using package time (trans_seq.go)
+	// [ext:T20] (gen/trans_ext20.go) -------------------------------------------------------------------------------
+	Globals    []string // package-level variables treated as explicit state: read -> extra parameter, written -> extra result
+	WrapSigned bool     // int8/16/32/64 wrap around (swrap N) instead of being unbounded; `int` stays unbounded
+	Frags      []FragSpec
 }
 
 type unsupported struct{ msg string }
@@ -42,14 +46,18 @@ const (
 	kSlice              // []int-like / []T -> list Z
 	kStruct             // a translated struct (or a pointer to it) -> its Record
 	kPlace              // [seq] h := &s[i], s a slice of translated structs -> the index (trans_seq.go)
+	kErr                // [ext:T20] error -> Z: nil = 0, a sentinel `var ErrX = errors.New(..)` = a positive code
 )
 
 type gtype struct {
-	k    kind
-	bits int
-	st   *structInfo
-	ptr  bool
-	elem *structInfo // [seq] kSlice: the element struct of a []S (nil: list Z)
+	k     kind
+	bits  int
+	st    *structInfo
+	ptr   bool
+	elem  *structInfo // [seq] kSlice: the element struct of a []S (nil: list Z)
+	str   bool        // [ext:T20] kSlice that is a Go string (immutable bytes)
+	arr   int64       // [ext:T20] kSlice that is a Go array [arr]T (isArr)
+	isArr bool
 }
 
 func (g gtype) coq() string {
@@ -71,6 +79,9 @@ func (g gtype) zero() string {
 	case kBool:
 		return "false"
 	case kSlice:
+		if g.isArr { // [ext:T20]
+			return fmt.Sprintf("(repeat 0 %d)", g.arr)
+		}
 		return "[]"
 	case kStruct:
 		return "zero_" + g.st.name
@@ -97,6 +108,10 @@ type funcInfo struct {
 	loops   bool // contains a loop (directly or through calls): takes `fuel`
 	callees map[*funcInfo]bool
 	done    bool
+	// [ext:T20]
+	greads, gwrites map[*globalInfo]bool // package-level state read / written (directly or through calls)
+	ignoredRecv     bool                 // a receiver of an untranslatable type that the body never mentions
+	frag            *fragInfo            // a loop fragment of a function instead of a whole function
 }
 
 type Translator struct {
@@ -109,6 +124,7 @@ type Translator struct {
 	order   []*funcInfo
 	global  map[string]bool // Coq names that locals must not shadow
 	seq     *seqState       // [seq] sequential reading of atomics, places, timed tails (trans_seq.go)
+	ext20                   // [ext:T20] state of gen/trans_ext20.go
 }
 
 type stubImporter struct{}
@@ -118,6 +134,11 @@ func (stubImporter) Import(path string) (*types.Package, error) {
 		return p, nil
 	}
 	p := types.NewPackage(path, filepath.Base(path))
+	if path == "errors" { // [ext:T20] errors.New has a type, so that `var ErrX = errors.New("..")` and `err == ErrX` are typed
+		sig := types.NewSignatureType(nil, nil, nil, types.NewTuple(types.NewVar(token.NoPos, p, "text", types.Typ[types.String])),
+			types.NewTuple(types.NewVar(token.NoPos, p, "", types.Universe.Lookup("error").Type())), false)
+		p.Scope().Insert(types.NewFunc(token.NoPos, p, "New", sig))
+	}
 	p.MarkComplete()
 	return p, nil
 }
@@ -148,6 +169,9 @@ func (t *Translator) typeOf(ty types.Type, n ast.Node) gtype {
 	}
 	switch x := ty.(type) {
 	case *types.Basic:
+		if g, ok := t.basic20(x); ok { // [ext:T20] string; intN when TransSpec.WrapSigned
+			return g
+		}
 		switch x.Kind() {
 		case types.Int, types.Int64, types.UntypedInt, types.UntypedRune:
 			return gtype{k: kInt}
@@ -163,6 +187,11 @@ func (t *Translator) typeOf(ty types.Type, n ast.Node) gtype {
 			return gtype{k: kBool}
 		case types.UntypedNil:
 			return gtype{k: kSlice}
+		}
+	case *types.Array: // [ext:T20]
+		e := t.typeOf(x.Elem(), n)
+		if (e.k == kInt || e.k == kUint) && x.Len() >= 0 {
+			return gtype{k: kSlice, isArr: true, arr: x.Len()}
 		}
 	case *types.TypeParam:
 		return gtype{k: kElem}
@@ -183,6 +212,9 @@ func (t *Translator) typeOf(ty types.Type, n ast.Node) gtype {
 	case *types.Named:
 		if si := t.structs[x.Origin().Obj()]; si != nil {
 			return gtype{k: kStruct, st: si}
+		}
+		if x.Obj().Pkg() == nil && x.Obj().Name() == "error" { // [ext:T20]
+			return gtype{k: kErr}
 		}
 		if _, ok := x.Underlying().(*types.Basic); ok {
 			return t.typeOf(x.Underlying(), n)
@@ -205,7 +237,8 @@ func (t *Translator) exprType(e ast.Expr) gtype {
 var coqReserved = strings.Fields(`as at cofix else end exists exists2 fix for forall fun if IF in let match mod Prop return Set then
  Type using where with Z nat list bool unit option true false tt fst snd inl inr negb andb orb xorb eqb repeat length app
  fuel bind Ret Panic NoFuel lift lift_fuel mmap zlen wrap m_rem m_quot m_shl m_shr m_get m_set m_slice m_make m_make_cap
- m_copy copy_all gocopy gorem goquot get_at set_at slice upd while ctl Next Break Return M Some None S O`)
+ m_copy copy_all gocopy gorem goquot get_at set_at slice upd while ctl Next Break Return M Some None S O
+ swrap str_of_byte`)
 
 func funcKey(fd *ast.FuncDecl) string {
 	n := fd.Name.Name
@@ -255,9 +288,14 @@ func Translate(repo string, spec TransSpec) (out string, err error) {
 		t.global[w] = true
 	}
 	t.seqInit(spec, tpkg, p.Files) // [seq]
+	t.setup20(p, tpkg, spec)       // [ext:T20]
 	for _, f := range p.Files {
 		for _, d := range f.Decls {
 			if fd, ok := d.(*ast.FuncDecl); ok && fd.Body != nil {
+				if fd.Recv == nil && fd.Name.Name == "init" { // [ext:T20] several init() may exist: keyed by the global they assign
+					t.keyInit20(fd)
+					continue
+				}
 				t.byName[funcKey(fd)] = fd
 			}
 		}
@@ -306,16 +344,20 @@ func Translate(repo string, spec TransSpec) (out string, err error) {
 			return "", fmt.Errorf("function %s not found in %s (or it has no body)", fn, spec.Dir)
 		}
 	}
+	t.addFrags20(spec) // [ext:T20]
 	t.analyse()
+	var fb strings.Builder // [ext:T20] functions first (they register the constants they use), constants emitted before them
 	for _, fi := range t.order {
 		if t.seq.extern[fi.goName] { // [seq] emitted by another area
 			continue
 		}
-		sb.WriteString("\n" + t.emitFunc(fi))
+		fb.WriteString("\n" + t.emitFunc(fi))
 		// proofs unfold generated definitions through this hint database, so that a helper function that appears
 		// in the source later is unfolded without touching the proof scripts
-		fmt.Fprintf(&sb, "#[export] Hint Unfold %s : go2v.\n", fi.name)
+		fmt.Fprintf(&fb, "#[export] Hint Unfold %s : go2v.\n", fi.name)
 	}
+	sb.WriteString(t.consts20())
+	sb.WriteString(fb.String())
 	return sb.String(), nil
 }
 
@@ -365,7 +407,7 @@ func (t *Translator) addFunc(key string) *funcInfo {
 	if fi := t.funcs[obj]; fi != nil {
 		return fi
 	}
-	fi := &funcInfo{decl: fd, obj: obj, goName: key, name: "g_" + strings.ReplaceAll(key, ".", "_"), callees: map[*funcInfo]bool{}}
+	fi := &funcInfo{decl: fd, obj: obj, goName: key, name: "g_" + strings.NewReplacer(".", "_", ":", "_").Replace(key), callees: map[*funcInfo]bool{}}
 	t.funcs[obj] = fi
 	t.global[fi.name] = true
 	sig := obj.Type().(*types.Signature)
@@ -373,10 +415,12 @@ func (t *Translator) addFunc(key string) *funcInfo {
 		t.fail(fd, "variadic function %s", key)
 	}
 	if r := sig.Recv(); r != nil {
-		fi.recv = r
-		fi.recvT = t.typeOf(r.Type(), fd)
-		if fi.recvT.k != kStruct {
-			t.fail(fd, "receiver type %s", r.Type())
+		if !t.recv20(fi, r) { // [ext:T20] value receiver of a named integer type; unused receiver of an untranslatable type
+			fi.recv = r
+			fi.recvT = t.typeOf(r.Type(), fd)
+			if fi.recvT.k != kStruct {
+				t.fail(fd, "receiver type %s", r.Type())
+			}
 		}
 	}
 	for i := 0; i < sig.Params().Len(); i++ {
@@ -503,6 +547,13 @@ func (t *Translator) assigned(n ast.Node, set map[types.Object]bool) {
 					}
 				}
 			}
+			if fn, _ := t.calleeOf(x); fn != nil { // [ext:T20] package-level state written by the callee
+				if fi := t.funcs[fn]; fi != nil {
+					for g := range fi.gwrites {
+						set[g.obj] = true
+					}
+				}
+			}
 		}
 		return true
 	})
@@ -560,6 +611,9 @@ func (t *Translator) analyse() {
 				if c.loops && !fi.loops {
 					fi.loops, changed = true, true
 				}
+			}
+			if t.globals20(fi) { // [ext:T20]
+				changed = true
 			}
 		}
 	}
